@@ -69,6 +69,14 @@ fn main() {
     if std::env::var("VERIF_SHOW_PANICS").is_err() {
         std::panic::set_hook(Box::new(|_| {}));
     }
+    if args.len() >= 4 && args[1] == "first-call" {
+        // child of history::first_call_in_fresh_process: these are the first calls into the crate
+        if let (Some(f), Ok(d)) = (history::fam_parse(&args[2]), args[3].parse::<i32>()) {
+            history::child_first_call(f, d);
+            return;
+        }
+        std::process::exit(2);
+    }
     if args.len() >= 3 && args[1] == "replay" {
         let body = match std::fs::read_to_string(&args[2]) {
             Ok(b) => b,
